@@ -35,6 +35,17 @@ REFINE = [
     ('PySpikeVerif.Proofs.GenRefine.AddPwlLemmas', []),
     ('PySpikeVerif.Proofs.GenRefine.AddPwl', ['add_piece_wise_lin_python']),
 ]
+COMMITTED_PYX = os.path.join(LEAN_DIR, 'PySpikeVerif', 'Gen', 'BackendPyx.lean')
+REFINE_PYX = [
+    ('PySpikeVerif.Proofs.GenRefine.PyxTau', ['cython_get_tau.get_tau']),
+    ('PySpikeVerif.Proofs.GenRefine.PyxIsi', ['cython_profiles.isi_profile_cython', 'cython_distances.isi_distance_cython']),
+    ('PySpikeVerif.Proofs.GenRefine.PyxSpike', ['cython_profiles.spike_profile_cython']),
+    ('PySpikeVerif.Proofs.GenRefine.PyxSpikeDist', ['cython_distances.spike_distance_cython']),
+    ('PySpikeVerif.Proofs.GenRefine.PyxCoinc', ['cython_profiles.coincidence_profile_cython', 'cython_profiles.coincidence_single_profile_cython']),
+    ('PySpikeVerif.Proofs.GenRefine.PyxValues', ['cython_distances.coincidence_value_cython', 'cython_directionality.spike_train_order_cython', 'cython_directionality.spike_directionality_cython']),
+    ('PySpikeVerif.Proofs.GenRefine.PyxOrderDir', ['cython_directionality.spike_train_order_profile_cython', 'cython_directionality.spike_directionality_profiles_cython']),
+    ('PySpikeVerif.Proofs.GenRefine.PyxAdd', ['cython_add.*']),
+]
 GEN_OPS = {'isi_profile', 'spike_profile', 'get_tau', 'coinc_profile', 'order_profile', 'coinc_single', 'dir_profile',
            'add_pwc', 'add_pwl', 'add_disc'}
 # property → correspondence suites whose kernel cases are replayed on the generated model
@@ -55,20 +66,46 @@ def _std_lean_path():
     return p.stdout.decode().strip()
 
 
-def translate():
+def translate(pyx=False):
     try:
-        return py2lean.generate(REPO), None
+        return (py2lean.generate_pyx(REPO) if pyx else py2lean.generate(REPO)), None
     except py2lean.Untranslatable as ex:
         return None, str(ex)
     except (SyntaxError, OSError) as ex:
         return None, 'source could not be read: %r' % ex
 
 
-def recheck(text):
+def refine_modules(pyx):
+    """proof modules to re-check, in dependency order: the listed ones plus every helper module of the
+    same family present in Proofs/GenRefine (Pyx*.lean for the Cython family)"""
+    d = os.path.join(LEAN_DIR, 'PySpikeVerif', 'Proofs', 'GenRefine')
+    present = sorted(f[:-5] for f in os.listdir(d) if f.endswith('.lean'))
+    fam = [m for m in present if m.startswith('Pyx')] if pyx else [m for m in present if not m.startswith('Pyx')]
+    mods = ['PySpikeVerif.Proofs.GenRefine.' + m for m in fam]
+    # topological order by the import lines
+    imp = {}
+    for m in mods:
+        txt = open(_mod_path(m)).read()
+        imp[m] = [l.split()[1] for l in txt.split('\n') if l.startswith('import ') and l.split()[1] in mods]
+    order, seen = [], set()
+    def visit(m):
+        if m in seen:
+            return
+        seen.add(m)
+        for q in imp[m]:
+            visit(q)
+        order.append(m)
+    for m in mods:
+        visit(m)
+    return order
+
+
+def recheck(text, pyx=False):
     """compile the regenerated text and the refinement proofs in a scratch directory"""
     h = hashlib.sha256(text.encode()).hexdigest()[:16]
     scratch = os.path.join(BUILD, 'gen', h)
-    src = os.path.join(scratch, 'PySpikeVerif', 'Gen', 'Backend.lean')
+    gen_mod = 'BackendPyx' if pyx else 'Backend'
+    src = os.path.join(scratch, 'PySpikeVerif', 'Gen', gen_mod + '.lean')
     # Lean resolves a module through the first search-path entry that contains its root package, so the
     # scratch directory has to offer the whole library: symlinks to the compiled files of the normal
     # build, with Gen/Backend and everything that depends on it replaced by files compiled here
@@ -79,7 +116,10 @@ def recheck(text):
         for root, _, files in os.walk(os.path.join(scratch, 'PySpikeVerif')):
             for fn in files:
                 rel = os.path.relpath(os.path.join(root, fn), scratch)
-                if rel.startswith(os.path.join('PySpikeVerif', 'Gen', 'Backend.')) or os.sep + 'GenRefine' in rel:
+                stale = rel.startswith(os.path.join('PySpikeVerif', 'Gen', gen_mod + '.')) \
+                    or rel.startswith(os.path.join('PySpikeVerif', 'Properties', 'GenRefine')) \
+                    or (os.sep + 'GenRefine' + os.sep in rel and (not pyx or os.path.basename(rel).startswith('Pyx')))
+                if stale:
                     os.remove(os.path.join(root, fn))
     os.makedirs(os.path.dirname(src), exist_ok=True)
     open(src, 'w').write(text)
@@ -99,17 +139,18 @@ def recheck(text):
         if not ok and os.path.exists(o):
             os.remove(o)
         return ok, txt[-600:]
-    ok, msg = compile_(src, 'PySpikeVerif.Gen.Backend')
+    ok, msg = compile_(src, 'PySpikeVerif.Gen.' + gen_mod)
     out['backend_compiles'] = ok
     if not ok:
         out['backend_error'] = msg
         return out
     failed = set()
-    for mod, fns in REFINE:
+    # a change of the Python backend invalidates both proof families (the Pyx proofs import Defs, which
+    # imports Gen.Backend); a change of the .pyx sources only the Pyx family
+    families = [True] if pyx else [False, True]
+    todo = [m for fam in families for m in refine_modules(fam)]
+    for mod in todo:
         path = _mod_path(mod)
-        if not os.path.exists(path):
-            out['modules'][mod] = 'absent'
-            continue
         imports = [l.split()[1] for l in open(path).read().split('\n') if l.startswith('import ')]
         if any(i in failed for i in imports):
             out['modules'][mod] = 'skipped (an import no longer checks)'
@@ -122,14 +163,14 @@ def recheck(text):
     return out
 
 
-def run_gen(lines, lean_path=None):
+def run_gen(lines, lean_path=None, driver='GenMain.lean'):
     if not lines:
         return []
     data = '\n'.join(lines) + '\n'
     if lean_path is None:
-        cmd, env = ['lake', 'env', 'lean', '--run', 'GenMain.lean'], None
+        cmd, env = ['lake', 'env', 'lean', '--run', driver], None
     else:
-        cmd, env = ['lean', '--run', 'GenMain.lean'], dict(os.environ, LEAN_PATH=lean_path)
+        cmd, env = ['lean', '--run', driver], dict(os.environ, LEAN_PATH=lean_path)
     p = subprocess.run(cmd, cwd=LEAN_DIR, env=env, input=data.encode(), stdout=subprocess.PIPE, stderr=subprocess.PIPE)
     if p.returncode != 0:
         raise RuntimeError('generated-model driver failed: ' + p.stderr.decode()[:400])
@@ -220,5 +261,73 @@ def gen_tie(prop, tier, rng):
                     len(v['disagreements']), v['disagreements'][0]['request'])
         except Exception as ex:
             res['translator_validation'] = {'error': repr(ex)[:300]}
+    res['seconds'] = round(time.time() - t0, 1)
+    return res
+
+
+def validate_pyx(tier, rng, lean_path=None, cap=None):
+    """model generated from the .pyx sources vs the transliterated .pyx routines executed in Python"""
+    from . import extra, adapters
+    cap = cap or (4000 if tier == 'quick' else 30000)
+    cases = []
+    for op, f, tags in extra.pyx_cases(tier, rng):
+        if extra.is_f12(op, f):
+            continue        # IEEE NaN·0 of the single-pass routines (finding F12): outside the Rat semantics
+        cases.append((op, f))
+    if len(cases) > cap:
+        step = len(cases) / float(cap)
+        cases = [cases[int(k * step)] for k in range(cap)]
+    lines = [line_of(op, f) for op, f in cases]
+    answers = run_gen(lines, lean_path, driver='GenPyxMain.lean')
+    dis, n, per_op = [], 0, {}
+    for (op, f), line, ans in zip(cases, lines, answers):
+        g = parse_out(ans)
+        try:
+            r = extra.pyx_runner(op, f)
+        except adapters.Missing as ex:
+            return {'evaluated': n, 'skipped': 'routine not found: %s' % ex, 'disagreements': dis, 'per_op': per_op}
+        n += 1
+        per_op[op] = per_op.get(op, 0) + 1
+        why = compare(g, r, adapters.exact_fields(extra.MODEL_OP.get(op, op), len(g) if not isinstance(g, str) else 0))
+        if why is not None:
+            dis.append({'request': line, 'generated': ans[:300], 'implementation': str(r)[:300], 'difference': why})
+            if len(dis) >= 10:
+                break
+    return {'evaluated': n, 'skipped': None, 'disagreements': dis, 'per_op': per_op}
+
+
+def gen_tie_pyx(tier, rng):
+    """the same tie for the Cython sources (C12): pyx → pyx2py → py2lean → Gen/BackendPyx.lean"""
+    t0 = time.time()
+    res = {'translator': 'harness/pyx2py.py + harness/py2lean.py', 'sources': ['pyspike/cython/cython_%s.pyx' % n for n in ('get_tau', 'profiles', 'distances', 'add', 'directionality')]}
+    text, err = translate(pyx=True)
+    if text is None:
+        res.update(status='untranslatable', reason=err,
+                   note='the current .pyx sources leave the translated subset; the generated tie is unavailable')
+        return res
+    committed = open(COMMITTED_PYX).read() if os.path.exists(COMMITTED_PYX) else None
+    lean_path = None
+    if text == committed:
+        res['status'] = 'identical'
+        res['note'] = 'regenerated text = committed Gen/BackendPyx.lean (sha256 %s)' % hashlib.sha256(text.encode()).hexdigest()[:16]
+    else:
+        res['status'] = 'changed'
+        rc = recheck(text, pyx=True)
+        res['recheck'] = {k: v for k, v in rc.items() if k != 'lean_path'}
+        if not rc.get('backend_compiles'):
+            res.update(status='untranslatable', reason='regenerated text does not compile')
+            return res
+        lean_path = rc['lean_path']
+        res['refinement_broken'] = [m for m, s_ in rc['modules'].items() if s_ != 'checks']
+        res['note'] = 'the .pyx sources changed; refinement proofs re-checked against the regenerated model: %d of %d still check' % (
+            sum(1 for s_ in rc['modules'].values() if s_ == 'checks'), len(rc['modules']))
+    try:
+        v = validate_pyx(tier, rng, lean_path)
+        res['translator_validation'] = {'evaluated': v['evaluated'], 'per_op': v['per_op'], 'skipped': v['skipped'], 'disagreements': v['disagreements'][:5]}
+        if v['disagreements']:
+            res['status_validation'] = 'generated model does NOT reproduce the transliterated .pyx routines on %d of the cases (first: %s)' % (
+                len(v['disagreements']), v['disagreements'][0]['request'])
+    except Exception as ex:
+        res['translator_validation'] = {'error': repr(ex)[:300]}
     res['seconds'] = round(time.time() - t0, 1)
     return res
